@@ -99,6 +99,7 @@ def run(prog, rep, tier, cfg):
     X.callers('K5', ST + 'transfer_balance', callee_is(ST + 'transfer_balance'), [ST + 'process_deal_update', ST + 'process_slashed_deal'], crates=[CR])
     # ---- running totals (amounts, power, datacap) accumulated in loops keep their earlier contributions
     X.accumulator_integrity('K12', 'running-totals', ['fil_actor_market'], 'running totals of amounts')
+    X.no_dropped_results('K14', 'results-not-discarded', ['fil_actor_market'], 'no Result of a call is discarded')
 
 
 
